@@ -55,6 +55,7 @@ func TestCheck(t *testing.T) {
 		if os.Getenv("VERIF_C05_SKIP_E2E") == "" {
 			r.Require(r.Counter("e2e_batches") >= 20, "too few end-to-end batches")
 			r.Require(r.Counter("e2e_quiescence_429_observed") >= 20, "too few end-to-end quiescence probes reached the 429")
+			r.Require(r.Counter("e2e_panics_injected_while_writing_503") >= 5 && r.Counter("e2e_panics_injected_in_upgrade_hijack") >= 5, "too few panics were injected in the dispatcher's frame after admission")
 			r.Require(r.Counter("e2e_streams_ended_by_endpoint_removal") >= 3, "too few streams were torn down by an endpoint removal")
 			r.Require(r.Counter("e2e_near_collision_scenarios") >= 3, "too few end-to-end near-collision scenarios completed")
 		}
